@@ -4,9 +4,9 @@ SPEC = {
     "lean_project": "AgdbCrash",
     "props_module": "AgdbCrash.Props.C32",
     "audit_file": "AgdbCrash/Audit/C32.lean",
-    "full_theorems": ["C32_depth_restored", "C32_later_work_durable"],
+    "full_theorems": ["C32_depth_restored", "C32_later_work_durable", "C32_depth_restored_tolerant"],
     "partial_theorems": ["C32_no_effect_partial"],
-    "counterexamples": ["C32_stuck_transaction_counterexample", "C32_no_effect_counterexample"],
+    "counterexamples": ["C32_stuck_transaction_counterexample", "C32_no_effect_counterexample", "C32_plain_commit_tolerant_counterexample"],
     "driver": "crashmodel",
     "harness_bin": "harness_crash",
     "level": "other",
